@@ -141,7 +141,22 @@ fn case(cfg: &Config, tmp: &Path, idx: u64, r: &mut Rng, st: &mut Stats) {
     let mut top: Vec<String> = std::fs::read_dir(&work).unwrap().flatten().map(|e| e.file_name().to_string_lossy().to_string()).collect();
     top.sort();
     r.shuffle(&mut top);
-    let args: Vec<String> = if r.chance(1, 6) { vec![".".to_string()] } else { top.clone() };
+    let mut args: Vec<String> = if r.chance(1, 6) { vec![".".to_string()] } else { top.clone() };
+    if r.chance(1, 6) && !args.is_empty() {
+        // the same path twice, or a file given directly in front of the directory that holds it
+        if r.chance(1, 2) {
+            let k = r.upto(args.len());
+            let dup = args[k].clone();
+            let at = r.upto(args.len() + 1);
+            args.insert(at, dup);
+        } else if let Some(inner) = used.iter().find(|u| u.contains('/')) {
+            let dir = inner.split('/').next().unwrap().to_string();
+            if let Some(pos) = args.iter().position(|a| *a == dir) {
+                args.insert(pos, inner.clone());
+            }
+        }
+        st.inc("layouts_with_a_path_given_twice");
+    }
     let roles = model(&args.iter().map(|a| work.join(a)).collect::<Vec<_>>());
     // canonical invocation built from the model's role assignment
     let mut canon_files: Vec<String> = Vec::new();
